@@ -138,7 +138,7 @@ theorem Conf.foldl_leave {P : SessKey → Prop} : ∀ (cs : List Session) {r : R
 theorem shutdownRealm_conf {P : SessKey → Prop} {r : Realm} (h : Conf P r) :
     Conf P (shutdownRealm r).2 ∧ (∀ q ∈ (shutdownRealm r).1.out, P q.1) ∧ (∀ k ∈ (shutdownRealm r).1.closed, P k) := by
   unfold shutdownRealm
-  exact (Conf.foldl_leave r.clients (r := { r with retries := [], deferred := [], tasks := [] }) h).flush
+  exact (Conf.foldl_leave r.clients (r := { r with retries := [], deferred := [], inbox := [], tasks := [] }) h).flush
 
 /-! ### the clock: every realm advances on its own -/
 
@@ -626,15 +626,87 @@ theorem create_inv {cfgs : List Config} {rt : Router} (h : Router.create cfgs = 
   cases e
   exact ⟨List.nodup_nil, fun p hp => by cases hp⟩
 
-/-- routers reachable from `Router.create` by well-formed operations -/
+/-- the invariant does not mention the realm template -/
+theorem Inv.withTemplate {rt : Router} (hi : Inv rt) (t : Option Config) : Inv { rt with template := t } :=
+  ⟨hi.names, hi.conf⟩
+
+/-- routers reachable by well-formed operations from the initial router `NewRouter` builds: the
+    realms of `Router.create cfgs` together with the realm template `t` of the router configuration
+    (`Config.RealmTemplate`; `none` = no template).  The template is fixed at construction and no
+    operation changes it (`step_template`). -/
 inductive Reachable : Router → Prop
-  | init {cfgs : List Config} {rt : Router} : Router.create cfgs = some rt → Reachable rt
+  | init {cfgs : List Config} {rt : Router} (t : Option Config) :
+      Router.create cfgs = some rt → Reachable { rt with template := t }
   | step {rt : Router} (rop : ROp) : Reachable rt → rop.wf → Reachable (rt.step rop).2
 
 theorem Reachable.inv {rt : Router} (h : Reachable rt) : Inv rt := by
   induction h with
-  | init h => exact create_inv h
+  | init t h => exact (create_inv h).withTemplate t
   | step rop _ hw ih => exact ih.step rop hw
+
+/-- a router built without a template (`Router.create` as it stands) is reachable -/
+theorem Reachable.init0 {cfgs : List Config} {rt : Router} (h : Router.create cfgs = some rt) : Reachable rt := by
+  have e : rt.template = none := by
+    rw [create_eq] at h
+    have key : ∀ (cfgs : List Config) (acc : Option Router), (∀ r, acc = some r → r.template = none) →
+        ∀ r, cfgs.foldl createStep acc = some r → r.template = none := by
+      intro cfgs
+      induction cfgs with
+      | nil => intro acc ha; exact ha
+      | cons c cs ih =>
+        intro acc ha
+        refine ih _ ?_
+        intro r e
+        unfold createStep at e
+        split at e
+        · cases e
+        · rename_i r0
+          split at e
+          · cases e
+          · split at e
+            · cases e; exact ha r0 rfl
+            · cases e
+    exact key cfgs (some {}) (fun r e => by cases e; rfl) rt h
+  have : rt = { rt with template := none } := by cases rt; simp_all
+  rw [this]
+  exact .init none h
+
+/-- no operation changes the realm template -/
+theorem step_template (rt : Router) (rop : ROp) : (rt.step rop).2.template = rt.template := by
+  cases rop with
+  | join name k l d ro c =>
+    cases hc : (rt.closed || name == "") with
+    | true => rw [step_join_refused hc]
+    | false =>
+      cases hr : (rt.ensureRealm name).realm? name with
+      | none => rw [step_join_none hc hr]; exact (ensureRealm_fields rt name).2.2.1
+      | some r => rw [step_join_some hc hr]; exact (ensureRealm_fields rt name).2.2.1
+  | sess k op =>
+    cases h : rt.realmOf k with
+    | none => rw [step_sess_unknown h]
+    | some A =>
+      cases hr : rt.realm? A with
+      | none => rw [step_sess_gone h hr]
+      | some r => rw [step_sess_some h hr]; rfl
+  | tick ms =>
+    rw [step_tick_eq]
+    have : ∀ (l : List (String × Realm)) (acc : RObserved × Router), (tickFold ms l acc).2.template = acc.2.template := by
+      intro l
+      induction l with
+      | nil => intro acc; rfl
+      | cons p l ih => intro acc; rw [tickFold_cons]; exact ih _
+    exact this _ _
+  | rnd n => rfl
+  | close => rfl
+  | removeRealm A =>
+    cases hr : rt.realm? A with
+    | none => rw [step_remove_none hr]
+    | some r => rw [step_remove_some hr]
+  | addRealm cfg =>
+    rw [step_add]
+    split
+    · rfl
+    · split <;> rfl
 
 end Router
 end Nexus.L2
